@@ -111,6 +111,11 @@ func (e *Engine) deepComps(t types.Type, out map[string]bool) {
 }
 
 func (e *Engine) modOfSpec(sp *FuncSpec, sig *types.Signature, pkg *ssa.Package, mi *modInfo) {
+	for _, c := range sp.Sets {
+		if g, ok := e.specs.Ghosts[c.Key]; ok {
+			mi.comps[e.comp("ghost$"+g.Name, g.Sort)] = true
+		}
+	}
 	for _, m := range sp.Modifies {
 		if m == "*" || m == "heap" {
 			mi.all = true
@@ -155,8 +160,8 @@ func (e *Engine) modTargetComps(m string, sp *FuncSpec, sig *types.Signature) ([
 		}
 		return sortedKeys(out), nil
 	}
-	if strings.HasSuffix(m, "[*]") {
-		name := strings.TrimSuffix(m, "[*]")
+	if strings.HasSuffix(m, "[*]") || strings.HasSuffix(m, "[:]") {
+		name := strings.TrimSuffix(strings.TrimSuffix(m, "[*]"), "[:]")
 		t := e.exprType(sig, sp.Pkg, name)
 		if t == nil {
 			return nil, fmt.Errorf("unknown %s", name)
@@ -1090,6 +1095,19 @@ func (fr *Frame) applyContract(sp *FuncSpec, name string, sig *types.Signature, 
 		fr.assumeHere(t)
 		e.noteFacts(env, c.Expr, fr.cur.reach)
 	}
+	for _, c := range sp.Sets {
+		g, ok := e.specs.Ghosts[c.Key]
+		if !ok {
+			e.unsupported = append(e.unsupported, fmt.Sprintf("%s: sets: unknown ghost %s", short, c.Key))
+			continue
+		}
+		v, err := env.Val(c.Expr)
+		if err != nil {
+			e.unsupported = append(e.unsupported, fmt.Sprintf("%s: sets %s: %v", short, c.Key, err))
+			continue
+		}
+		e.set(fr.cur.st, e.comp("ghost$"+g.Name, g.Sort), v.T)
+	}
 	if sp.Trusted {
 		e.assume("trusted contract: " + name)
 	}
@@ -1163,8 +1181,9 @@ func (fr *Frame) applyModifies(m string, sp *FuncSpec, sig *types.Signature, env
 		fr.havocReach(v, what)
 		return
 	}
-	if strings.HasSuffix(m, "[*]") {
-		ex, err := ParseExpr(strings.TrimSuffix(m, "[*]"))
+	if strings.HasSuffix(m, "[*]") || strings.HasSuffix(m, "[:]") {
+		lenOnly := strings.HasSuffix(m, "[:]")
+		ex, err := ParseExpr(strings.TrimSuffix(strings.TrimSuffix(m, "[*]"), "[:]"))
 		if err != nil {
 			fail(err)
 			return
@@ -1177,12 +1196,22 @@ func (fr *Frame) applyModifies(m string, sp *FuncSpec, sig *types.Signature, env
 		switch u := v.Ty.Underlying().(type) {
 		case *types.Slice:
 			c := e.elemComp(u.Elem())
+			if lenOnly {
+				fr.frameLo, fr.frameHi = "(s_off "+v.T+")", "(+ (s_off "+v.T+") (s_len "+v.T+"))"
+			} else {
+				fr.frameLo, fr.frameHi = "(s_off "+v.T+")", "(+ (s_off "+v.T+") (s_cap "+v.T+"))"
+			}
 			fr.checkFrame(c, "(s_arr "+v.T+")", what)
+			fr.frameLo, fr.frameHi = "", ""
 			cur := e.get(st, c)
 			// only positions inside [off, off+cap) may change
 			na := fr.freshElemArray(u.Elem())
 			old := "(select " + cur + " (s_arr " + v.T + "))"
-			e.sc.assert(fmt.Sprintf("(forall ((i Int)) (! (=> (or (< i (s_off %[1]s)) (>= i (+ (s_off %[1]s) (s_cap %[1]s)))) (= (select %[2]s i) (select %[3]s i))) :pattern ((select %[2]s i))))", v.T, na, old))
+			ext := "(s_cap " + v.T + ")"
+			if lenOnly {
+				ext = "(s_len " + v.T + ")"
+			}
+			e.sc.assert(fmt.Sprintf("(forall ((i Int)) (! (=> (or (< i (s_off %[1]s)) (>= i (+ (s_off %[1]s) %[4]s))) (= (select %[2]s i) (select %[3]s i))) :pattern ((select %[2]s i))))", v.T, na, old, ext))
 			e.set(st, c, "(store "+cur+" (s_arr "+v.T+") "+na+")")
 		case *types.Map:
 			d, vv := e.mapComps(u)
@@ -1317,7 +1346,9 @@ func (fr *Frame) builtin(b *ssa.Builtin, cc *ssa.CallCommon, args []Val, resT ty
 		n := e.sc.define("copyn", "Int", "(imin (s_len "+dst.T+") "+lenOf(src)+")")
 		if sl, ok := dst.Ty.Underlying().(*types.Slice); ok {
 			c := e.elemComp(sl.Elem())
+			fr.frameLo, fr.frameHi = "(s_off "+dst.T+")", "(+ (s_off "+dst.T+") "+n+")"
 			fr.checkFrame(c, "(s_arr "+dst.T+")", "copy")
+			fr.frameLo, fr.frameHi = "", ""
 			cur := e.get(st, c)
 			na := e.sc.fresh("copied", "(Array Int "+e.sortOf(sl.Elem())+")")
 			old := "(select " + cur + " (s_arr " + dst.T + "))"
